@@ -1401,10 +1401,14 @@ sexp sexp_make_string_op (sexp ctx, sexp self, sexp_sint_t n, sexp len, sexp ch)
   sexp_gc_var2(b, s);
 #endif
 #if SEXP_USE_UTF8_STRINGS
-  int j, clen;
+  sexp_sint_t j;
+  int clen;
   if (sexp_charp(ch) && (sexp_unbox_character(ch) >= 0x80)) {
     sexp_assert_type(ctx, sexp_fixnump, SEXP_FIXNUM, len);
     clen = sexp_utf8_char_byte_count(sexp_unbox_character(ch));
+    /* the byte length must still be a fixnum */
+    if (sexp_unbox_fixnum(len) < 0 || sexp_unbox_fixnum(len) > SEXP_MAX_FIXNUM / 4)
+      return sexp_xtype_exception(ctx, self, "string length out of range", len);
     b = sexp_make_bytes_op(ctx, self, n,
                            sexp_fx_mul(len, sexp_make_fixnum(clen)), SEXP_VOID);
     if (sexp_exceptionp(b)) return b;
